@@ -259,3 +259,29 @@ Proof.
   rewrite !app_length, repeat_length, IH. reflexivity.
 Qed.
 End X.
+
+(* ---- C18: locations outside every stretch ---- *)
+Section SelValues.
+Context {D : Type}.
+(* what a stretch sees of the fibre: the (x, data) pairs at the selected positions are exactly the pairs whose x lies in the
+   stretch, in fibre order; so a location that lies in no stretch can be removed without changing what any stretch sees *)
+Lemma sel_from_values k (pre : list (Q * D)) (xd : list (Q * D)) s dflt : length pre = k ->
+  map (fun i => nth i (pre ++ xd) dflt) (sel_from k (map fst xd) s) = filter (fun p => inb (fst p) s) xd.
+Proof.
+  revert k pre. induction xd as [|[x d] r IH]; intros k pre Hk; simpl; [reflexivity|].
+  assert (E: pre ++ (x, d) :: r = (pre ++ [(x, d)]) ++ r) by (rewrite <- app_assoc; reflexivity).
+  assert (Hl: length (pre ++ [(x, d)]) = S k) by (rewrite app_length; simpl; lia).
+  destruct (inb x s) eqn:Ei; simpl.
+  - f_equal.
+    + rewrite app_nth2 by lia. rewrite Hk, Nat.sub_diag. reflexivity.
+    + rewrite E. apply IH, Hl.
+  - rewrite E. apply IH, Hl.
+Qed.
+Lemma sel_values (xd : list (Q * D)) s dflt :
+  map (fun i => nth i xd dflt) (sel (map fst xd) s) = filter (fun p => inb (fst p) s) xd.
+Proof. exact (sel_from_values 0 [] xd s dflt eq_refl). Qed.
+Lemma unselected_location_is_irrelevant (l1 l2 : list (Q * D)) (p : Q * D) s dflt : inb (fst p) s = false ->
+  map (fun i => nth i (l1 ++ p :: l2) dflt) (sel (map fst (l1 ++ p :: l2)) s) =
+  map (fun i => nth i (l1 ++ l2) dflt) (sel (map fst (l1 ++ l2)) s).
+Proof. intros H. rewrite !sel_values, !filter_app. simpl. rewrite H. reflexivity. Qed.
+End SelValues.
